@@ -228,12 +228,12 @@ def _hygiene(fl, f0, f1, f2, order):
         sut.close()
 
 
-@cond(quick=dict(timeout=170, parts=dict(FL=[0, 1], F0=[0, 1, 2, 3, 4, 5, 6, 7, 8, 9, 10, 11, 12, 14, 15, 16, 17])),
-      thorough=dict(timeout=900, parts=dict(FL=[0, 1], F0=[0, 1, 2, 3, 4, 5, 6, 7, 8, 9, 10, 11, 12, 14, 15, 16, 17])))
+@cond(quick=dict(FULL=0, timeout=170, parts=dict(FL=[0, 1], F0=[0, 1, 2, 3, 4, 5, 6, 7, 8, 9, 10, 11, 12, 14, 15, 16, 17])),
+      thorough=dict(FULL=1, timeout=900, parts=dict(FL=[0, 1], F0=[0, 1, 2, 3, 4, 5, 6, 7, 8, 9, 10, 11, 12, 14, 15, 16, 17])))
 def table_after_history(fl: int, f0: int, f1: int, f2: int, prior: bool) -> str:
     """
     pre: fl == P.FL and f0 == P.F0 and 0 <= f1 < len(FATES) and 0 <= f2 < len(FATES) and (f1 != 13 or f2 == 13)
-    pre: not prior or f2 == 13
+    pre: not prior or f2 == 13 or P.FULL == 1
     post: _ == ''
     """
     return verdict(untraced(_hygiene, fl, f0, f1, f2, 1 if prior else 0))
